@@ -127,6 +127,17 @@ def gen(params):
                     yield {"kind": "quote", "name": name, "in": ctx}
                 for name in UNQUOTERS:
                     yield {"kind": "unquote", "name": name, "in": ctx}
+    elif mode == "run_adjacency":
+        # an undecodable / truncated escape run right next to a valid sequence of every UTF-8 length (and the other way round)
+        bad = ["%E2%82", "%F0%9F%98", "%C3", "%FF", "%ED%A0%80", "%C0%80", "%E2", "%F0%9F", "%F4%90%80%80", "%80", "%"]
+        good = ["%41", "%C3%A9", "%E2%82%AC", "%F0%9F%98%80", "%F4%8F%BF%BF", "a", "\xe9"]
+        for b_ in bad:
+            for g_ in good:
+                for t in (b_ + g_, g_ + b_, b_ + g_ + b_, g_ + b_ + g_, b_ + b_ + g_):
+                    for name in QUOTERS:
+                        yield {"kind": "quote", "name": name, "in": T(t)}
+                    for name in UNQUOTERS:
+                        yield {"kind": "unquote", "name": name, "in": T(t)}
     elif mode == "subclass_str":
         # arguments whose str() differs from their underlying text, both in need of quoting / unquoting
         for alt, content in (("E.X", "a b"), ("x y/%2F", "plain"), ("plain", "p q%41"), ("", "nonempty"), ("%41 é", "")):
